@@ -27,6 +27,7 @@ type SimCase struct {
 	Labels  map[string]string // C14: label renaming
 	Mutated string            // MUT: description of the mutation applied ("" = none)
 	RenInfo *gen.Renaming
+	StageRen *gen.Renaming // the generator's own respelling stage (not C14's twin)
 }
 
 type Violation struct {
@@ -74,6 +75,21 @@ func DrawSimCase(ch Chooser, prop string) *SimCase {
 		c.Opts.MainStructured = ch.Intn(2) == 1
 	}
 	c.Prog = gen.Generate(ch.Intn, c.Opts)
+	// generator stages: respell the program (deliberate name coincidences, provider-alias
+	// shadowing), respell its types (aliases, unrollings, isomorphic copies), or - for the
+	// properties quantified over every *accepted* program - apply a single-edit mutation
+	switch ch.Intn(7) {
+	case 1, 2:
+		c.Prog, c.StageRen = gen.Rename(c.Prog, ch.Intn)
+	case 3:
+		c.Prog, c.StageRen = gen.Rename(c.Prog, ch.Intn, gen.RenameOpts{ShadowAlias: true})
+	case 4:
+		gen.ApplyTypeVariants(c.Prog, ch.Intn)
+	case 5:
+		if prop == "C01" || prop == "C02" || prop == "C03" {
+			c.Mutated = gen.Mutate(c.Prog, ch.Intn)
+		}
+	}
 	c.Src = c.Prog.Text()
 	cf := c.Prog.ContractionFree()
 	switch prop {
@@ -184,7 +200,7 @@ func evalRun(c *SimCase, idx int, cfg sim.Config, res *sim.Result, ri refInfo, i
 	if !c.Prog.ContractionFree() {
 		facts["contraction"] = "yes"
 	}
-	if len(res.ProtocolObs) > 0 {
+	if len(res.ProtocolObs) > 0 || res.ClosedOps > 0 {
 		facts["closed_channel_seen"] = "yes"
 	}
 	add := func(prop, class, msg string, tk string) {
@@ -277,7 +293,12 @@ func ExecSimCase(t *testing.T, c *SimCase) ([]Violation, *CaseStats, []string) {
 	st := &CaseStats{Inconclusive: map[string]int{}, OtherProps: map[string]int{}}
 	var trouble []string
 	var vs []Violation
-	ri := runRef(c.Prog)
+	var ri refInfo
+	if c.Mutated != "" {
+		ri = refInfo{why: "mutant: reference semantics not consulted"}
+	} else {
+		ri = runRef(c.Prog)
+	}
 	if !ri.ok {
 		st.RefInconcl = ri.why
 	}
